@@ -33,6 +33,7 @@ import (
 	"github.com/onflow/cadence"
 	"github.com/onflow/cadence/common"
 	cadenceErrors "github.com/onflow/cadence/errors"
+	"github.com/onflow/cadence/sema"
 )
 
 // HasMsgPrefix returns true if the msg prefix (first few bytes)
@@ -2301,16 +2302,26 @@ func (d *Decoder) decodeParameterTypeValues(visited *cadenceTypeByCCFTypeID) ([]
 		// "Valid CCF Encoding Requirements" in CCF specs:
 		//
 		//   "All parameter lists MUST have unique identifier"
-		if _, ok := parameterLabels[param.Label]; ok {
-			return nil, fmt.Errorf("found duplicate parameter label %s", param.Label)
+		//
+		// Like in Cadence, a parameter list may have several parameters which have no argument label,
+		// i.e. an empty label or the label `_`, e.g. `init(_ a: Int, _ b: Int)`,
+		// and the parameters of a function type, e.g. `fun(Int, Int): Void`,
+		// have neither a label nor an identifier.
+		if param.Label != "" && param.Label != sema.ArgumentLabelNotRequired {
+			if _, ok := parameterLabels[param.Label]; ok {
+				return nil, fmt.Errorf("found duplicate parameter label %s", param.Label)
+			}
+
+			parameterLabels[param.Label] = struct{}{}
 		}
 
-		if _, ok := parameterIdentifiers[param.Identifier]; ok {
-			return nil, fmt.Errorf("found duplicate parameter identifier %s", param.Identifier)
-		}
+		if param.Identifier != "" {
+			if _, ok := parameterIdentifiers[param.Identifier]; ok {
+				return nil, fmt.Errorf("found duplicate parameter identifier %s", param.Identifier)
+			}
 
-		parameterLabels[param.Label] = struct{}{}
-		parameterIdentifiers[param.Identifier] = struct{}{}
+			parameterIdentifiers[param.Identifier] = struct{}{}
+		}
 
 		parameterTypes[i] = param
 	}
